@@ -240,3 +240,132 @@ def build_od(model, node_id=None):
         else:
             setattr(d.device_information, k, v)
     return d
+
+
+# ----------------------------------------------------------------------------- models for EDS/DCF import-export (C08, C14)
+EDS_NAME_CHARS = "ABCDEFGHIJKLMNOPQRSTUVWXYZabcdefghijklmnopqrstuvwxyz0123456789 _-%=()[]/+"
+
+
+def eds_value(rng, dt):
+    """Values that survive a text representation unambiguously."""
+    if dt in R.STRINGS:
+        n = rng.randint(1, 20)
+        s = "".join(rng.choice("ABCDEFGHIJKLMNOPQRSTUVWXYZabcdefghijklmnopqrstuvwxyz0123456789 _-%=+") for _ in range(n)).strip()
+        return s or "x"
+    if dt in R.BLOBS:
+        return bytes(rng.getrandbits(8) for _ in range(rng.randint(1, 12)))
+    return random_value(rng, dt)
+
+
+def eds_model(rng, node_id=None, n_objects=14, dcf=False, index_ranges=((0x1002, 0x1FFF), (0x2000, 0x5FFF), (0x6000, 0x9FFF)),
+              compact=True, relative=True, odd_width_limits=True):
+    m = OdM()
+    used = set()
+
+    def name():
+        for _ in range(200):
+            k = rng.randint(3, 24)
+            nm = "".join(rng.choice(EDS_NAME_CHARS) for _ in range(k)).strip()
+            nm = " ".join(nm.split())
+            if len(nm) >= 2 and nm not in used and not nm.startswith(("[", "#")) and nm[0].isalnum():
+                used.add(nm)
+                return nm
+        raise RuntimeError("no name")
+
+    def var(index, sub, nm=None, dt=None):
+        dt = dt if dt is not None else rng.choice(R.ALL_TYPES)
+        v = VarM(index, sub, nm or name(), dt, access=rng.choice(ACCESS), pdo=rng.random() < 0.4)
+        if rng.random() < 0.6:
+            v.default = eds_value(rng, dt)
+        if dcf and rng.random() < 0.5:
+            v.value = eds_value(rng, dt)
+        if dt in R.INTEGERS and rng.random() < 0.5 and (odd_width_limits or R.INTEGERS[dt] in (8, 16, 32, 64)):
+            lo, hi = R.int_range(dt)
+            a, b = sorted([rng.choice([lo, lo + 1, -1 if lo < 0 else 0, 0, rng.randint(lo, hi)]), rng.choice([hi, hi - 1, 1, rng.randint(lo, hi)])])
+            if rng.random() < 0.8:
+                v.lo = a
+            if rng.random() < 0.8:
+                v.hi = b
+        if relative and node_id is not None and dt in (R.UNSIGNED32, R.UNSIGNED16) and rng.random() < 0.3:
+            v.default_rel = rng.choice([0x180, 0x200, 0x600, 0x80, 1, 0])
+            v.default = v.default_rel + node_id
+            v.relative = True
+            if dcf and rng.random() < 0.4:
+                v.value_rel = rng.choice([0x280, 0x300])
+                v.value = v.value_rel + node_id
+        if dt in R.INTEGERS and rng.random() < 0.3:
+            v.factor = rng.choice([0.5, 2.0, 0.001, 10.0, -1.5])
+            v.unit = rng.choice(["mm", "rpm", "A", "deg C", ""])
+        if rng.random() < 0.3:
+            v.description = "Description of " + v.name
+        if rng.random() < 0.2:
+            v.storage = rng.choice(["RAM", "ROM", "PERSIST_COMM"])
+        return v
+
+    # mandatory objects
+    m.add(ObjM("var", 0x1000, "Device type", {0: VarM(0x1000, 0, "Device type", R.UNSIGNED32, "ro", default=rng.getrandbits(32))}))
+    m.add(ObjM("var", 0x1001, "Error register", {0: VarM(0x1001, 0, "Error register", R.UNSIGNED8, "ro", default=0, pdo=True)}))
+    ident = {0: VarM(0x1018, 0, "Highest sub-index supported", R.UNSIGNED8, "const", default=4)}
+    for s, nm in enumerate(["Vendor-ID", "Product code", "Revision number", "Serial number"], start=1):
+        ident[s] = VarM(0x1018, s, nm, R.UNSIGNED32, "ro", default=rng.getrandbits(32))
+    m.add(ObjM("record", 0x1018, "Identity object", ident))
+    used.update(["Device type", "Error register", "Identity object"])
+    indices = set()
+    while len(indices) < n_objects:
+        lo, hi = rng.choice(index_ranges)
+        i = rng.randint(lo, hi)
+        if i not in (0x1000, 0x1001, 0x1018):
+            indices.add(i)
+    for index in sorted(indices):
+        kind = rng.choice(["var", "var", "record", "array", "compact" if compact else "array"])
+        nm = name()
+        if kind == "var":
+            m.add(ObjM("var", index, nm, {0: var(index, 0, nm)}))
+        elif kind == "compact":
+            n = rng.randint(1, 12)
+            tmpl = var(index, 1, nm, dt=rng.choice([d for d in R.ALL_TYPES if d not in R.BLOBS]))
+            tmpl.lo = tmpl.hi = None
+            tmpl.default_rel = tmpl.value_rel = None
+            tmpl.relative = False
+            tmpl.value = None
+            tmpl.factor, tmpl.unit, tmpl.description, tmpl.storage = 1, "", "", None
+            if tmpl.default is not None and tmpl.dt in (R.UNSIGNED32, R.UNSIGNED16):
+                tmpl.default = eds_value(rng, tmpl.dt)
+            members = {0: VarM(index, 0, "Number of entries", R.UNSIGNED8)}
+            names = {s: name() for s in range(1, n + 1)} if rng.random() < 0.6 else None
+            for s in range(1, n + 1):
+                v = VarM(index, s, names[s] if names else nm, tmpl.dt, tmpl.access, default=tmpl.default, pdo=tmpl.pdo)
+                members[s] = v
+            o = ObjM("array", index, nm, members, compact=True, compact_names=names)
+            m.add(o)
+        else:
+            k = rng.randint(1, 20)
+            members = {0: VarM(index, 0, "Highest sub-index supported" if kind == "record" else "Number of entries", R.UNSIGNED8,
+                               rng.choice(["ro", "const"]), default=k)}
+            if kind == "record":
+                subs = sorted(rng.sample(range(1, 0x40), k))
+                for s in subs:
+                    members[s] = var(index, s)
+                members[0].default = max(subs)
+            else:
+                dt = rng.choice(R.ALL_TYPES)
+                for s in range(1, k + 1):
+                    members[s] = var(index, s, dt=dt)
+            o = ObjM(kind, index, nm, members)
+            if rng.random() < 0.2:
+                o.storage = rng.choice(["RAM", "ROM"])
+            m.add(o)
+    m.node_id = node_id
+    m.bitrate = rng.choice([None, 10000, 125000, 250000, 500000, 1000000]) if dcf else None
+    m.comments = rng.choice(["", "Single line comment", "First line\nSecond line with = and %\nThird: line"])
+    m.device_info = {
+        "vendor_name": rng.choice(["ACME Drives", "canmon GmbH", "V=1 %"]), "vendor_number": rng.getrandbits(32),
+        "product_name": rng.choice(["Servo 3000", "IO-Module"]), "product_number": rng.getrandbits(32),
+        "revision_number": rng.getrandbits(32), "order_code": rng.choice(["ORD-1", "X 17"]),
+        "simple_boot_up_master": rng.random() < 0.5, "simple_boot_up_slave": rng.random() < 0.5,
+        "granularity": rng.choice([0, 1, 8, 16, 64]), "dynamic_channels_supported": rng.random() < 0.5,
+        "group_messaging": rng.random() < 0.5, "nr_of_RXPDO": rng.randint(0, 8), "nr_of_TXPDO": rng.randint(0, 512),
+        "LSS_supported": rng.random() < 0.5,
+        "allowed_baudrates": set(rng.sample([10000, 20000, 50000, 125000, 250000, 500000, 800000, 1000000], rng.randint(1, 5))),
+    }
+    return m
